@@ -83,7 +83,10 @@ Top(t) == IF t.k \in {"op", "uop"} THEN t.s ELSE t.k          \* outermost const
 Fail(v, prop, clause, h, i) ==
   IF v[prop] = "ok"
   THEN [v EXCEPT ![prop] = ToJson([line |-> l, clause |-> clause, h |-> h, env |-> i,
-                                   top |-> IF h \in 1..Len(pool) THEN Top(pool[h]) ELSE "new"])]
+                                   top |-> IF h \in 1..Len(pool) THEN Top(pool[h]) ELSE "new",
+                                   rsf |-> IF h \in 1..Len(pool) /\ pool[h].k = "op" THEN Rsf(pool[h]) ELSE 0,
+                                   lw  |-> IF h \in 1..Len(pool) /\ pool[h].k = "op" THEN Width(pool[h].l) ELSE 0,
+                                   aw  |-> IF h \in 1..Len(pool) /\ pool[h].k = "op" THEN Width(pool[h].r) ELSE 0])]
   ELSE v
 MeaningFail(v, prop, clause, obs, den, h, i) ==
   LET got == Eval(obs, EnvOf(i), {}) d == Explains(den, EnvOf(i), got, Devs) IN
